@@ -36,9 +36,9 @@ func allSpecs() map[string]*PropSpec {
 	add(&PropSpec{
 		ID:          "C12",
 		Technique:   "effect summaries of index add/remove with parameter binding (inverse-operation table), snapshot coverage, must-clear of memoised caches per critical section, role-based fixpoint checks of the include-tree refresh",
-		Explanation: "T1: the workspace index's add and remove methods touch the same aggregates field by field and every add operation has an inverse on the remove side (+= / decrement, keyed append / keyed filter, per-file slot set / delete); an aggregate stored by overwrite and removed by key is reported as non-invertible. T2: the snapshot exports every aggregate. C12-CLEAR: every critical section of the workspace that mutates the resolved tree clears all memoised derived caches unconditionally. C12-REFRESH: the include-tree refresh is a fixpoint that recomputes reachability in every iteration and is invoked whenever the include list changed (element-wise comparison). M-ORDER: no map-iteration order reaches the index.",
+		Explanation: "T1: the workspace index's add and remove methods touch the same aggregates field by field and every add operation has an inverse on the remove side (+= / decrement, keyed append / keyed filter, per-file slot set / delete); an aggregate stored by overwrite and removed by key is reported as non-invertible. T2: the snapshot exports every aggregate. C12-CLEAR: every critical section of the workspace that mutates the resolved tree clears all memoised derived caches unconditionally. C12-UPDATE: a call of Workspace.UpdateFile in the notification handlers is not control dependent on the text (no nothing-relevant-changed short cut). C12-REFRESH: the include-tree refresh is a fixpoint that recomputes reachability in every iteration and is invoked whenever the include list changed (element-wise comparison). M-ORDER: no map-iteration order reaches the index.",
 		NotDecided:  "equality of the incremental and the rebuilt view as values over update sequences (needs execution); file-system effects (files unreadable during refresh).",
-		Rules:       []func(*Ctx){ruleT1T2, ruleC12Clear, ruleC12Refresh, ruleC12Pair, ruleMapOrder},
+		Rules:       []func(*Ctx){ruleT1T2, ruleC12Clear, ruleC12Refresh, ruleC12Pair, ruleC12Update, ruleMapOrder},
 	})
 	add(&PropSpec{
 		ID:          "C10",
@@ -72,11 +72,11 @@ func allSpecs() map[string]*PropSpec {
 	add(&PropSpec{
 		ID:          "C19",
 		Technique:   "settings model extracted from the parser (key, converter, guarded store per leaf incl. helper functions), normaliser guard table, panic-instruction scan of everything reachable from the parser, lockset and read-modify-write analysis, overlay check of update functions",
-		Explanation: "T6: every leaf of the settings struct (enumerated from the type definitions) is assigned by the settings parser in a nested-key and a dotted-key form with the same spelling, each assignment guarded by its converter's ok result and fed from the converted value (ill-typed or unknown entries leave the previous value unchanged); no key feeds two leaves; every numeric leaf has a non-positive guard in the normaliser; every leaf is read by some feature outside the parser. C19-CONVERT: converters accept by type only (no range filter that would bypass the normaliser's default fallback, boolean spellings true/false only). C19-TOTAL: no module function reachable from the settings parser contains an unchecked assertion, index, slice, non-constant division or panic, and its recursion is on a member of its argument. C-LOCKSET on the settings struct; C-RMW: a configuration refresh reads the current settings, overlays the payload and stores the result inside one critical section, so that of two concurrent refreshes neither loses the other's recognised values. C19-OVERLAY: outside the initialisation phase every store into the settings derives from the current settings, and every function applied to the current settings at the call sites of the update routine returns a value computed from its argument (a wholesale replacement is only accepted from the constructor and Initialize).",
+		Explanation: "T6: every leaf of the settings struct (enumerated from the type definitions) is assigned by the settings parser in a nested-key and a dotted-key form with the same spelling, each assignment guarded by its converter's ok result and fed from the converted value (ill-typed or unknown entries leave the previous value unchanged); no key feeds two leaves; every numeric leaf has a non-positive guard in the normaliser; every leaf is read by some feature outside the parser. C19-CONVERT: converters accept by type only (no range filter that would bypass the normaliser's default fallback, boolean spellings true/false only). C19-TOTAL: no module function reachable from the settings parser contains an unchecked assertion, index, slice, non-constant division or panic, and its recursion is on a member of its argument. C-LOCKSET on the settings struct; C-RMW: a configuration refresh reads the current settings, overlays the payload and stores the result inside one critical section, so that of two concurrent refreshes neither loses the other's recognised values. C19-OVERLAY: outside the initialisation phase every store into the settings derives from the current settings, and every function applied to the current settings at the call sites of the update routine returns a value computed from its argument (a wholesale replacement is only accepted from the constructor and Initialize). C19-PULL: every path through the configuration-change handler starts a pull of the client's configuration (no throttle or early return can drop a change).",
 		NotDecided:  "feature switches after initialisation (capabilities are computed once in Initialize); that a recognised value changes behaviour in the intended way (value semantics of each feature).",
-		Rules:       []func(*Ctx){ruleSettings, ruleLockset, ruleRMW, ruleOverlay},
+		Rules:       []func(*Ctx){ruleSettings, ruleLockset, ruleRMW, ruleOverlay, rulePull},
 	})
-	wsFresh := []func(*Ctx){ruleT1T2, ruleC12Clear, ruleC12Refresh, ruleC12Pair}
+	wsFresh := []func(*Ctx){ruleT1T2, ruleC12Clear, ruleC12Refresh, ruleC12Pair, ruleC12Update}
 	add(&PropSpec{
 		ID:          "C18",
 		Technique:   "guard-shape agreement of analysis entry points incl. helpers, writer/reader table of diagnostic codes vs. settings filter (decision table from switch or if-chain), control dependence of emission on declared and seen sets, SSA slicing of declaration sources",
